@@ -154,10 +154,10 @@ func (p *sPeer) WriteMsg(code p2p.MsgCode, msg []byte) error {
 	}
 }
 
-func (p *sPeer) SetWriteDeadline(d time.Duration)                             {}
-func (p *sPeer) RNodeID() *p2p.NodeID                                          { return &p.id }
-func (p *sPeer) RAddress() string                                              { return fmt.Sprintf("10.20.0.%d:7001", p.idx+1) }
-func (p *sPeer) LAddress() string                                              { return "127.0.0.1:7001" }
+func (p *sPeer) SetWriteDeadline(d time.Duration)                            {}
+func (p *sPeer) RNodeID() *p2p.NodeID                                        { return &p.id }
+func (p *sPeer) RAddress() string                                            { return fmt.Sprintf("10.20.0.%d:7001", p.idx+1) }
+func (p *sPeer) LAddress() string                                            { return "127.0.0.1:7001" }
 func (p *sPeer) DoHandshake(prv *ecdsa.PrivateKey, nodeID *p2p.NodeID) error { return nil }
 func (p *sPeer) Run() error {
 	<-p.closed
@@ -213,13 +213,17 @@ type chainProxy struct {
 	cfs map[common.Hash]int         // signatures handed to InsertConfirms by block hash
 }
 
-func (cp *chainProxy) Genesis() *types.Block                          { return cp.n.BC.Genesis() }
-func (cp *chainProxy) HasBlock(hash common.Hash) bool                 { return cp.n.BC.HasBlock(hash) }
-func (cp *chainProxy) GetBlockByHeight(height uint32) *types.Block    { return cp.n.BC.GetBlockByHeight(height) }
-func (cp *chainProxy) GetBlockByHash(hash common.Hash) *types.Block   { return cp.n.BC.GetBlockByHash(hash) }
-func (cp *chainProxy) CurrentBlock() *types.Block                     { return cp.n.BC.CurrentBlock() }
-func (cp *chainProxy) StableBlock() *types.Block                      { return cp.n.BC.StableBlock() }
-func (cp *chainProxy) IsInBlackList(b *types.Block) bool              { return cp.n.BC.IsInBlackList(b) }
+func (cp *chainProxy) Genesis() *types.Block          { return cp.n.BC.Genesis() }
+func (cp *chainProxy) HasBlock(hash common.Hash) bool { return cp.n.BC.HasBlock(hash) }
+func (cp *chainProxy) GetBlockByHeight(height uint32) *types.Block {
+	return cp.n.BC.GetBlockByHeight(height)
+}
+func (cp *chainProxy) GetBlockByHash(hash common.Hash) *types.Block {
+	return cp.n.BC.GetBlockByHash(hash)
+}
+func (cp *chainProxy) CurrentBlock() *types.Block        { return cp.n.BC.CurrentBlock() }
+func (cp *chainProxy) StableBlock() *types.Block         { return cp.n.BC.StableBlock() }
+func (cp *chainProxy) IsInBlackList(b *types.Block) bool { return cp.n.BC.IsInBlackList(b) }
 func (cp *chainProxy) InsertBlock(block *types.Block) error {
 	h := block.Hash()
 	err := cp.n.BC.InsertBlock(block)
@@ -262,7 +266,9 @@ type poolProxy struct {
 	errs map[common.Hash]int
 }
 
-func (pp *poolProxy) GetTxs(time uint32, size int) types.Transactions { return pp.n.Pool.GetTxs(time, size) }
+func (pp *poolProxy) GetTxs(time uint32, size int) types.Transactions {
+	return pp.n.Pool.GetTxs(time, size)
+}
 func (pp *poolProxy) AddTx(tx *types.Transaction) error {
 	h := tx.Hash()
 	err := pp.n.Pool.AddTx(tx)
